@@ -487,9 +487,9 @@ def replay(run, obj, quick=True):
 
 def search(run, rng, quick):
     t0 = time.time()
-    budget = 50.0 if quick else 540.0
-    plan = [("random-tree", _case_random_tree, 45 if quick else 700),
-            ("builders", _case_builders, 15 if quick else 200),
+    budget = 45.0 if quick else 520.0
+    plan = [("random-tree", _case_random_tree, 130 if quick else 2000),
+            ("builders", _case_builders, 45 if quick else 600),
             ("rejections", _case_rejections, 1)]
     queue = []
     for name, fn, n in plan:
